@@ -637,6 +637,9 @@ pub fn derive_key(phc: &Phc, password: &[u8]) -> Result<Vec<u8>, String> {
             Ok(out)
         }
         "pbkdf2-sha256" | "pbkdf2-sha512" => {
+            if phc.version.is_some() {
+                return Err("pbkdf2 has no version".into());
+            }
             let rounds = get("i").unwrap_or(600_000);
             let l = get("l").unwrap_or(32) as usize;
             if l != 32 {
